@@ -428,29 +428,11 @@ func (w *World) ruleRefOrdinal(r *Report, rule string) {
 			r.add(rule, fmt.Sprintf("%s · writeRef argument", fnName(fn)), w.instrPos(c), ok, "the ordinal written is result #0 of the registrar call of this value")
 		}
 	}
-	// writeRef body: x51 then the int codec on the parameter
-	f := w.flow(wr)
-	okBody := false
-	tagOK := false
-	for _, cs := range w.callSitesIn(wr) {
-		if cs.callee == "(*Encoder).writeBT" {
-			vs := varargBytes(cs.call)
-			if len(vs) == 1 {
-				if s, _ := f.ValueAt(vs[0], cs.call.Block()); s != nil && s.Equal(single(0x51)) {
-					tagOK = true
-				}
-			}
-		}
-		if cs.callee == "(*Encoder).writeInt" {
-			t := f.term(cs.call.Call.Args[1])
-			for t.K == TConv {
-				t = t.A
-			}
-			if t.Key() == "<p:index>" || strings.HasPrefix(t.Key(), "<p:") {
-				okBody = true
-			}
-		}
-	}
+	// writeRef body, read from its paths (helpers stepped into; the tag may go through the
+	// variadic byte writer or be handed to the slice writer as a one-octet slice): every
+	// path emits x51 first, and a path that can succeed then writes its integer parameter
+	// with the int codec and nothing else
+	okBody, tagOK := w.refWriterBody(wr)
 	r.add(rule, "(*Encoder).writeRef · x51 then int(ordinal)", w.pos(wr.Pos()), okBody && tagOK, fmt.Sprintf("tag x51 written=%v, ordinal parameter written with the int codec=%v", tagOK, okBody))
 	// the registrar returns the stored ordinal on a hit
 	fr := w.flow(reg)
@@ -472,4 +454,56 @@ func (w *World) ruleRefOrdinal(r *Report, rule string) {
 	r.add(rule, fnName(reg)+" · a hit returns the stored ordinal", w.pos(reg.Pos()), hit, "on a hit the value looked up in the ref table is returned")
 	w.ruleRefKeyPins(r, rule)
 	r.floor(rule, n, 3)
+}
+
+// refWriterBody: (the ordinal parameter is written with the int codec right after the tag
+// on every successful path, the first emission of every path is the octet x51).
+func (w *World) refWriterBody(wr *ssa.Function) (okBody, tagOK bool) {
+	wi := w.writerPaths(wr)
+	if wi.truncated || len(wi.paths) == 0 {
+		return false, false
+	}
+	okBody, tagOK = true, true
+	succ := 0
+	for _, p := range wi.paths {
+		var evs []pxEvent
+		for _, e := range p.Trace {
+			switch {
+			case e.Kind == "loophead", e.Kind == "fieldstore", e.Kind == "typetest", e.Kind == "mapupdate", strings.HasPrefix(e.Kind, "encode:"):
+				continue
+			}
+			evs = append(evs, e)
+		}
+		if len(evs) > 0 {
+			e := evs[0]
+			isTag := (e.Kind == "octets" || e.Kind == "bytes") && e.Extra != "unmodelled" && e.Extra != "open" && len(e.Args) == 1 && e.Args[0] != nil
+			if isTag {
+				s, _ := w.evalEv(e.Args[0], e.Env)
+				isTag = s != nil && s.Equal(single(0x51))
+			}
+			if !isTag {
+				tagOK = false
+			}
+		}
+		if !p.ErrNil {
+			continue
+		}
+		succ++
+		if len(evs) == 0 {
+			tagOK = false
+		}
+		good := len(evs) == 2 && evs[1].Kind == "scalar:int" && len(evs[1].Args) == 1
+		if good {
+			t := stripConv(w, evs[1].Args[0])
+			prm, isP := t.V.(*ssa.Parameter)
+			good = t.K == TLeaf && isP && prm.Parent() == wr
+		}
+		if !good {
+			okBody = false
+		}
+	}
+	if succ == 0 {
+		return false, false
+	}
+	return okBody, tagOK
 }
